@@ -254,6 +254,7 @@ package sourcebundle
 //@   replay bundleWorld:
 //@   requires pre.b: b != nil
 //@   at-panic C12.close.refuses-when-poisoned: b.targetDir == ""
+//@   ensures C12.close.no-return-when-poisoned: old(b.targetDir) != ""
 //@   at-call Builder.writeManifest C12,C09.close.manifest-path: a1 == Join(old(b.targetDir), "terraform-sources.json") && b.targetDir == ""
 //@   at-call OpenDir C09.close.opens-what-it-wrote: a0 == old(b.targetDir)
 //@   ensures C12.close.no-bundle-on-error: err != nil ==> r == nil
